@@ -37,7 +37,10 @@ def tasks(ctx, quick):
         if i % 8 == 7:
             rho = rng.choice([1e-10, 1e-12, 1e-7])
         items.append({"id": "t%d" % i, "kind": "comp", "materials": mats, "weights": ws, "density": rho, "wavelength": lam,
-                      "again": i % 4 == 2})
+                      "again": i % 4 == 2, "reuse_args": i % 5 == 1})
+        if form == 0 and i % 6 == 0:
+            items[-1]["wavelength"] = rng.choice([1, 2, 5, 12])
+            items[-1]["wtype"] = rng.choice(["int64", "float32", "int32", "float64"])
     return items
 
 
